@@ -226,7 +226,7 @@ CreateSyn(n, p) ==
 \* process_message (lib.rs:121-174).  keep = the datagram stays in flight (duplication).
 \* ProcessMsg does not require the datagram to be in `net` (crafted datagrams: detector histories,
 \* hostile peers); Process is the honest-network case.
-ProcessMsg(n, m, keep) ==
+ProcessMsgRec(n, m, keep, act, wire) ==
   /\ LET s0 == BumpHb(st[n], n)
          rest == IF keep THEN net ELSE net \ {m}
      IN
@@ -236,7 +236,7 @@ ProcessMsg(n, m, keep) ==
                  /\ st' = [st EXCEPT ![n] = s0]
                  /\ net' = rest \cup {out}
                  /\ UNCHANGED <<mid, panic>>
-                 /\ Step([a |-> "Process", n |-> n, msg |-> m, out |-> out])
+                 /\ Step([a |-> act, n |-> n, msg |-> wire, out |-> out])
             ELSE LET s1 == ReportDigest(s0, n, m.digest, clock)
                      sched == SchedOf(s1, clock)
                  IN \E d \in Deltas(s1.ns, m.digest, sched) :
@@ -245,7 +245,7 @@ ProcessMsg(n, m, keep) ==
                       /\ st' = [st EXCEPT ![n] = s1]
                       /\ net' = rest \cup {out}
                       /\ UNCHANGED <<mid, panic>>
-                      /\ Step([a |-> "Process", n |-> n, msg |-> m, out |-> out])
+                      /\ Step([a |-> act, n |-> n, msg |-> wire, out |-> out])
        [] m.t = "SynAck" ->
             LET s1 == ReportDigest(s0, n, m.digest, clock)
                 r  == ProcessDelta(s1, m.delta, clock)
@@ -256,20 +256,24 @@ ProcessMsg(n, m, keep) ==
                  /\ net' = rest \cup {out}
                  /\ mid' = [x \in Node |-> mid[x] \/ x \in r.mid]
                  /\ panic' = (panic \/ r.panic)
-                 /\ Step([a |-> "Process", n |-> n, msg |-> m, out |-> out])
+                 /\ Step([a |-> act, n |-> n, msg |-> wire, out |-> out])
        [] m.t = "Ack" ->
             LET r == ProcessDelta(s0, m.delta, clock) IN
             /\ st' = [st EXCEPT ![n] = r.s]
             /\ net' = rest
             /\ mid' = [x \in Node |-> mid[x] \/ x \in r.mid]
             /\ panic' = (panic \/ r.panic)
-            /\ Step([a |-> "Process", n |-> n, msg |-> m])
+            /\ Step([a |-> act, n |-> n, msg |-> wire])
        [] m.t = "Bad" ->
             /\ st' = [st EXCEPT ![n] = s0]
             /\ net' = rest
             /\ UNCHANGED <<mid, panic>>
-            /\ Step([a |-> "Process", n |-> n, msg |-> m])
+            /\ Step([a |-> act, n |-> n, msg |-> wire])
   /\ UNCHANGED <<clock, ledger>>
+
+ProcessMsg(n, m, keep) == ProcessMsgRec(n, m, keep, "Process", m)
+\* a crafted datagram (wire form `wire`, decoded form m); the reply stays in flight
+ProcessMsgAs(n, m, wire) == ProcessMsgRec(n, m, TRUE, "Inject", wire)
 
 Process(n, m, keep) == m \in net /\ m.dst = n /\ ProcessMsg(n, m, keep)
 
@@ -376,8 +380,8 @@ Next ==
   \/ "gc" \in Enable /\ \E n \in Node : GcKeys(n)
   \/ \E d \in Advances : Advance(d)
   \/ \E n, p \in Node : CreateSyn(n, p)
-  \/ \E m \in net : Process(m.dst, m, FALSE)
-  \/ "dup" \in Enable /\ \E m \in net : Process(m.dst, m, TRUE)
+  \/ \E m \in net : m.dst \in Node /\ Process(m.dst, m, FALSE)
+  \/ "dup" \in Enable /\ \E m \in net : m.dst \in Node /\ Process(m.dst, m, TRUE)
   \/ "lose" \in Enable /\ \E m \in net : Lose(m)
   \/ "live" \in Enable /\ \E n \in Node : UpdateLiveness(n)
   \/ "catchup" \in Enable /\ \E n, x, p \in Node : CatchupFromPeer(n, x, p)
@@ -601,6 +605,16 @@ C18_Catchup ==
 
 C18_NoPanic ==
   [][ Resetting \/ (LastAct.a = "Catchup" => ("panic" \notin DOMAIN LastAct /\ panic' = panic)) ]_<<vars, hist>>
+
+\* C09 on observed byte-level deliveries ("Recv") and crafted datagrams ("Inject"): never a panic;
+\* an undecodable datagram leaves the node exactly as it was
+SameObservable(a, b) == /\ a.ns = b.ns /\ a.live = b.live /\ DOMAIN a.dead = DOMAIN b.dead
+                        /\ a.watch = b.watch /\ a.wseq = b.wseq /\ a.cb = b.cb
+C09_RecvNoPanic ==
+  [][ Resetting \/ (LastAct.a \in {"Recv", "Inject"} => "panic" \notin DOMAIN LastAct) ]_<<vars, hist>>
+C09_UndecodableNoop ==
+  [][ Resetting \/ ((LastAct.a = "Recv" /\ ~LastAct.decoded) =>
+        SameObservable(st'[LastAct.n], st[LastAct.n])) ]_<<vars, hist>>
 
 \* C16 -- cluster isolation
 C16_Isolation ==
